@@ -57,7 +57,7 @@ def grid_cases(draw):
         north = [float(np.float32(v)) for v in north]
     if len(set(east)) < len(east) or len(set(north)) < len(north):
         east_dtype = north_dtype = "float64"
-    case = dict(nr=nr, nc=nc, east=east, north=north, nvars=nvars, seed=seed, nextra=nextra, east_dtype=east_dtype, north_dtype=north_dtype,
+    case = dict(nr=nr, nc=nc, east=east, north=north, nvars=nvars, seed=seed, nextra=nextra, east_dtype=east_dtype, north_dtype=north_dtype, big_int=draw(st.booleans()),
                 coords_2d=draw(st.booleans()), int_data=draw(st.booleans()),
                 dims=["y_" + draw(st.sampled_from(["a", "lat", "northing"])), "x_" + draw(st.sampled_from(["b", "lon", "easting"]))] if custom else None,
                 names=["var%d" % k for k in range(nvars)] if custom or nvars > 3 else None,
@@ -71,6 +71,9 @@ def values(case, k):
     rng = np.random.RandomState(case["seed"] + 7919 * k)  # seeded from the generated case: deterministic
     base = rng.permutation(nr * nc).astype("float64").reshape(nr, nc) + 1000.0 * (k + 1)
     if case["int_data"] and k < 100:
+        if case.get("big_int"):
+            # time stamps in nanoseconds: exact in int64, not in float64
+            return base.astype("int64") + 1_700_000_000_000_000_000
         return base.astype("int64")
     return base + rng.uniform(0, 0.5, size=(nr, nc))
 
